@@ -20,6 +20,12 @@ IR search (`SynKitModel/CrnIR.lean`, mirror of `CRNCanonicalizer._search`):
   `"0:…"`, the values `attrs.get(a, "")` of the edge keys for `"1:…"`.
   Node ids must be interned order-preservingly (`sorted(G.nodes())` ↦ `0, 1, …`) for cells, leaf
   order and `perms` to correspond item by item; partitions / labels correspond under any interning.
+* `crn.irCapped {graph, node_keys, edge_keys, max_depth, ranks?}` → the model of `_canon(max_depth=d)`
+  (`crnCanonCapped`): `{"error": "RuntimeError", "early_stop"}` when no leaf is reached, else `{"error": null,
+  "early_stop", "order", "label", "perms", "count", "orbits_raw", "orbits", "graph"}` (fields as in `crn.ir`,
+  computed from `best` / `perms` as they stand when the search stops); with `"ranks": true` also `depth`
+  (`crnDepth`), `leaf_depths` (per leaf in visiting order) and `same_nodes` (all leaf labels have the same node
+  segment: then the string order of two labels is decided in the arc segment).
 * `crn.ir_refine {graph, node_keys, edge_keys, partition}` → `_refine(G, partition)`
 * `crn.ir_sig {graph, node_keys, edge_keys, partition, node}` → `_sig` as `{attrs, in, out, counts, edges}`
 * `crn.ir_label {graph, node_keys, edge_keys, perm}` → `_label(G, perm)` structured as above
@@ -104,8 +110,31 @@ def irJson (sel : SelD) (g : LGraph) (withLeaves : Bool) : Json :=
         Json.mkObj [("prefix", toJson l.1), ("order", toJson l.2), ("label", labelJson (crnLeafLabel sel g l))]).toArray)]
     else []))
 
+/-- Answer of `crn.irCapped` (`_canon(max_depth=d, timeout_sec=None)` as `summary` reports it). -/
+def irCappedJson (sel : SelD) (g : LGraph) (d : Nat) (withRanks : Bool) : Json :=
+  let res : List (String × Json) :=
+    match crnCanonCapped sel g d with
+    | .error .notFound => [("error", Json.str "RuntimeError"), ("early_stop", toJson (crnIrCapped sel g d).2)]
+    | .ok (b, early) =>
+      let orbs := crnOrbitsFromPerms b.perms
+      [("error", Json.null), ("early_stop", toJson early), ("order", toJson b.perm), ("label", labelJson b.label),
+       ("perms", partJson b.perms), ("count", toJson b.perms.length), ("orbits_raw", partJson orbs),
+       ("orbits", partitionToJson orbs), ("graph", Driver.graphToJson (canonBy g b.perm))]
+  Json.mkObj (res ++
+    (if withRanks then
+      let leaves := crnRootLeaves sel g
+      let labs := leaves.map (crnLeafLabel sel g)
+      [("depth", toJson (crnDepth sel g)), ("leaf_depths", toJson (leaves.map crnLeafDepth)),
+       ("same_nodes", toJson (labs.all fun l => decide (l.nodes = (labs.headD default).nodes)))]
+    else []))
+
 def handle : Driver.Handler := fun cmd j =>
   match cmd with
+  | "crn.irCapped" => some do
+    let sel ← selOfJson j
+    let g ← Driver.getGraph j "graph"
+    let wr := match j.getObjValAs? Bool "ranks" with | .ok b => b | .error _ => false
+    pure (irCappedJson sel g (← Driver.getNat j "max_depth") wr)
   | "crn.ir" => some do
     let sel ← selOfJson j
     let g ← Driver.getGraph j "graph"
